@@ -1,3 +1,137 @@
 package main
 
-func parseRaces(prop string, m *merged) {}
+import (
+	"fmt"
+	"sort"
+	"strings"
+)
+
+// parseRaces turns the race detector's reports (stderr of the race-built
+// workers) into violations. A report counts when at least one of the two
+// accesses is made by code of package sod (first frame below the runtime /
+// standard library that belongs to sod, the harness or a shim) and none is an
+// access to shim memory; reports produced while leftover threads are unwound at
+// the end of an execution (#KILL ... #BEGIN) are ignored.
+func parseRaces(prop string, m *merged) {
+	total, counted, ignoredShim, ignoredKill := 0, 0, 0, 0
+	for _, out := range m.races {
+		lines := strings.Split(out, "\n")
+		inKill := false
+		curProg := ""
+		for i := 0; i < len(lines); i++ {
+			l := lines[i]
+			switch {
+			case strings.HasPrefix(l, "#BEGIN "):
+				inKill = false
+				curProg = strings.TrimPrefix(l, "#BEGIN ")
+				continue
+			case strings.HasPrefix(l, "#KILL"):
+				inKill = true
+				continue
+			}
+			if !strings.HasPrefix(l, "WARNING: DATA RACE") {
+				continue
+			}
+			// collect the block
+			j := i + 1
+			for j < len(lines) && !strings.HasPrefix(lines[j], "==================") {
+				j++
+			}
+			block := lines[i:j]
+			i = j
+			total++
+			if inKill {
+				ignoredKill++
+				continue
+			}
+			sides := raceSides(block)
+			if len(sides) < 2 {
+				continue
+			}
+			hasSod, hasShim := false, false
+			var names []string
+			for _, s := range sides[:2] {
+				switch s.pkg {
+				case "sod":
+					hasSod = true
+				case "shim":
+					hasShim = true
+				}
+				names = append(names, s.pkg+":"+s.fn)
+			}
+			if !hasSod || hasShim {
+				ignoredShim++
+				continue
+			}
+			counted++
+			sort.Strings(names)
+			sig := prop + "|race|" + strings.Join(names, "|")
+			if _, ok := m.viols[sig]; !ok {
+				what := "data race reported by the Go race detector inside an explored schedule:\n" + strings.Join(block, "\n")
+				if len(what) > 6000 {
+					what = what[:6000] + "..."
+				}
+				m.viols[sig] = &violation{Sig: sig, What: what, More: []byte(fmt.Sprintf("%q", curProg))}
+				m.order = append(m.order, sig)
+			}
+		}
+	}
+	m.counts["race_reports_total"] = int64(total)
+	m.counts["race_reports_in_sod"] = int64(counted)
+	m.counts["race_reports_ignored_shim_or_harness"] = int64(ignoredShim)
+	m.counts["race_reports_ignored_unwinding"] = int64(ignoredKill)
+}
+
+type raceSide struct {
+	pkg string // sod | harness | shim | other
+	fn  string
+}
+
+// raceSides extracts, for each access of a report, the innermost frame that
+// belongs to sod, the harness or a shim.
+func raceSides(block []string) []raceSide {
+	var sides []raceSide
+	inAccess := false
+	found := false
+	for _, l := range block {
+		t := strings.TrimSpace(l)
+		isHeader := (strings.HasPrefix(t, "Write at") || strings.HasPrefix(t, "Read at") || strings.HasPrefix(t, "Previous write at") || strings.HasPrefix(t, "Previous read at") ||
+			strings.HasPrefix(t, "Atomic write at") || strings.HasPrefix(t, "Atomic read at") || strings.HasPrefix(t, "Previous atomic"))
+		if isHeader {
+			if inAccess && !found {
+				sides = append(sides, raceSide{"other", "?"})
+			}
+			inAccess, found = true, false
+			continue
+		}
+		if strings.HasPrefix(t, "Goroutine ") {
+			if inAccess && !found {
+				sides = append(sides, raceSide{"other", "?"})
+			}
+			inAccess = false
+			continue
+		}
+		if !inAccess || found || t == "" || strings.HasPrefix(t, "/") {
+			continue
+		}
+		fn := t
+		if k := strings.LastIndex(fn, "("); k > 0 {
+			fn = fn[:k]
+		}
+		switch {
+		case strings.HasPrefix(fn, "github.com/0xrawsec/sod/zzverif/"):
+			sides = append(sides, raceSide{"shim", strings.TrimPrefix(fn, "github.com/0xrawsec/sod/zzverif/")})
+			found = true
+		case strings.HasPrefix(fn, "github.com/0xrawsec/sod."):
+			sides = append(sides, raceSide{"sod", strings.TrimPrefix(fn, "github.com/0xrawsec/sod.")})
+			found = true
+		case strings.HasPrefix(fn, "main."):
+			sides = append(sides, raceSide{"harness", strings.TrimPrefix(fn, "main.")})
+			found = true
+		}
+	}
+	if inAccess && !found {
+		sides = append(sides, raceSide{"other", "?"})
+	}
+	return sides
+}
